@@ -10,6 +10,7 @@ pub mod c03;
 pub mod c04;
 pub mod c05;
 pub mod c06;
+pub mod c07;
 pub mod c08;
 pub mod c09;
 pub mod c10;
@@ -80,6 +81,7 @@ pub fn dispatch(
     route!("C04", c04);
     route!("C05", c05);
     route!("C06", c06);
+    route!("C07", c07);
     route!("C08", c08);
     route!("C09", c09);
     route!("C10", c10);
